@@ -1,0 +1,91 @@
+//go:build verif
+
+// Contracts (machine-checked by /verif/engine, see /verif/DESIGN.md). Comment-only file.
+package resourcepack
+
+// ---- C27: resource-pack prompts never block on the handler's own lock and follow the version rules --------
+// sync.RWMutex is not re-entrant: a Lock() while this goroutine already holds the lock never returns. Every Lock/RLock in a
+// function under contract therefore carries the obligation "not already held", helpers that run with the lock held say so in
+// their precondition, and their callers must hold it.
+//@ guarded_by legacyHandler.rwMutex : prevResourceResponse, hasPrevResourceResponse, outstandingPacks, pendingPack, appliedPack
+//@ guarded_by modernHandler.rwMutex : outstandingPacks, pendingPacks, appliedPacks
+
+// Queue: append, and prompt only when this is the only outstanding pack (at most one prompt outstanding).
+//@ func (*legacyHandler).QueueResourcePack
+//@   props C27
+//@   at-call PushBack as push: assert arg1 == info && held(h.rwMutex) == wlocked
+//@   at-call Len as n: assert called(push)
+//@   at-call tickResourcePackQueueLocked as tick: assert called(push) && res(n) == 1 && arg0 == h
+//@   ensures [prompt-only-if-sole-pack] called(push) && (res(n) != 1 ==> !called(tick))
+
+// Tick (lock held): packs are taken from the FRONT of the queue; they are auto-declined only when the client has already made a
+// decision and that decision was "declined", never a forced pack on 1.17+; the prompt goes out for the pack that stopped the loop.
+// The client's recorded decision is left as it was.
+//@ func (*legacyHandler).tickResourcePackQueueLocked
+//@   props C27
+//@   requires held(h.rwMutex) == wlocked
+//@   at-call onResourcePackResponseLocked as decl: assert [auto-decline-only-after-a-decline] h.hasPrevResourceResponse && !h.prevResourceResponse && arg0 == h && arg1.Status == DeclinedResponseStatus && arg1.ID == queued.ID
+//@   at-call SendResourcePackRequestPacket as send: assert [prompt-under-lock] arg0 == h && arg1 == queued && held(h.rwMutex) == wlocked
+//@   loop 1: invariant h.hasPrevResourceResponse && !h.prevResourceResponse && held(h.rwMutex) == wlocked && old(h.hasPrevResourceResponse) && !old(h.prevResourceResponse)
+//@   ensures [decision-untouched] h.hasPrevResourceResponse == old(h.hasPrevResourceResponse) && h.prevResourceResponse == old(h.prevResourceResponse)
+//@   ensures [still-locked] held(h.rwMutex) == wlocked
+
+//@ func (*legacyHandler).onResourcePackResponse
+//@   props C27
+//@   at-call onResourcePackResponseLocked as body: assert held(h.rwMutex) == wlocked && arg0 == h && arg1 == bundle
+//@   ensures [delegates-under-lock] called(body) && result.0 == res(body, 0) && result.1 == res(body, 1)
+
+// Response bookkeeping (lock held): final (non-intermediate) statuses pop the front pack, and only if one is outstanding;
+// accepted/declined record the client's decision; the next prompt is ticked for final statuses only; the response is passed on
+// to handleResponseResult for the pack it belongs to.
+//@ func (*legacyHandler).onResourcePackResponseLocked
+//@   props C27
+//@   requires held(h.rwMutex) == wlocked
+//@   at-call Intermediate as peek
+//@   at-call Front as front: assert called(peek) && res(peek)
+//@   at-call Len as n: assert called(peek) && !res(peek)
+//@   at-call PopFront as pop: assert [pop-only-if-outstanding] called(n) && res(n) > 0 && !res(peek)
+//@   at-store prevResourceResponse: assert [decision-from-status] (value ==> bundle.Status == AcceptedResponseStatus) && (!value ==> bundle.Status == DeclinedResponseStatus)
+//@   at-store hasPrevResourceResponse: assert value && (bundle.Status == AcceptedResponseStatus || bundle.Status == DeclinedResponseStatus)
+//@   at-call tickResourcePackQueueLocked as tick: assert [next-prompt-after-final-status] !res(peek) && arg0 == h && held(h.rwMutex) == wlocked
+//@   at-call HandleResponseResult as hr: assert arg0 == h && arg1 == queued && arg2 == bundle
+//@   ensures [accepted-recorded] old(bundle.Status) == AcceptedResponseStatus ==> h.hasPrevResourceResponse && h.prevResourceResponse
+//@   ensures [declined-recorded] old(bundle.Status) == DeclinedResponseStatus ==> h.hasPrevResourceResponse && !h.prevResourceResponse
+//@   ensures [other-status-keeps-decision] old(bundle.Status) != AcceptedResponseStatus && old(bundle.Status) != DeclinedResponseStatus ==> h.hasPrevResourceResponse == old(h.hasPrevResourceResponse) && h.prevResourceResponse == old(h.prevResourceResponse)
+//@   ensures [final-status-ticks] called(hr) && (!res(peek) ==> called(tick))
+//@   ensures [still-locked] held(h.rwMutex) == wlocked
+
+// Responses to proxy-originated packs are not reported to the backend; all others are, when a backend is in flight.
+//@ func handleResponseResult
+//@   props C27
+//@   at-call BackendInFlight as be: assert !(queued != nil && queued.Origin == PluginOnProxyOrigin)
+//@   at-call WritePacket as wp: assert called(be) && arg0 == res(be) && !isnil(res(be))
+//@   ensures [proxy-packs-not-reported] handled == (queued != nil && queued.Origin == PluginOnProxyOrigin) && (handled ==> !called(wp))
+//@   ensures [backend-packs-reported] !handled ==> called(be) && (!isnil(res(be)) ==> called(wp))
+
+//@ func sendResourcePackRequestPacket
+//@   props C27
+//@   at-call WritePacket as wp: assert queued != nil && arg0 == player
+//@   ensures [nil-pack-no-prompt] queued == nil ==> !called(wp) && result == nil
+
+// Modern (1.20.3+): per-id tracking; the handler's lock is taken exactly once per public call.
+//@ func (*modernHandler).QueueResourcePack
+//@   props C27
+//@   at-call Put as put: assert held(m.rwMutex) == wlocked && arg1 == info.ID && arg2 == info
+//@   at-call tickResourcePackQueue as tick: assert [prompt-without-lock] held(m.rwMutex) == none && called(put)
+//@ func (*modernHandler).tickResourcePackQueue
+//@   props C27
+//@   at-call Get as get: assert held(m.rwMutex) != none && arg1 == id
+//@   at-call SendResourcePackRequestPacket as send: assert held(m.rwMutex) == none && arg0 == m
+//@ func (*modernHandler).tickResourcePackQueueLocked
+//@   props C27
+//@   requires held(m.rwMutex) == wlocked
+//@   at-call Get as get: assert arg1 == id
+//@   at-call SendResourcePackRequestPacket as send: assert arg0 == m && called(get)
+//@   ensures [still-locked] held(m.rwMutex) == wlocked
+//@ func (*modernHandler).OnResourcePackResponse
+//@   props C27
+//@   at-call Intermediate as peek
+//@   at-call Remove as rm: assert [final-status-removes-outstanding] !res(peek) && held(m.rwMutex) == wlocked && arg1 == old(bundle.ID)
+//@   at-call tickResourcePackQueueLocked as tick: assert [next-prompt-after-final-status] !res(peek) && arg0 == m && arg1 == old(bundle.ID) && held(m.rwMutex) == wlocked
+//@   at-call mapupdate: assert [tracked-per-id] arg1 == old(bundle.ID) && arg2 == queued && queued != nil && held(m.rwMutex) == wlocked
